@@ -30,6 +30,95 @@ func runC01(p *core.Prog, r *core.Report) {
 	c01R5(p, r)
 	c01R6(p, r)
 	c01R7(p, r)
+	c01R9(p, r)
+	c01R10(p, r)
+}
+
+// c01R9: the comparisons happen in the Read that sees EOF. A consumer that stops after a byte count
+// never makes that Read (or drops the error that arrives together with the last bytes).
+func c01R9(p *core.Prog, r *core.Report) {
+	const rule = "C01.R9"
+	r.Rule(rule, "blob streams are read to their end: no blob reader of types/blob is handed to a consumer that stops at a byte count (io.CopyN, io.ReadFull, io.ReadAtLeast, io.LimitReader, io.NewSectionReader); every consumer in the module drains to EOF, where the reader compares size and digest", 1)
+	bounded := map[string]bool{"CopyN": true, "ReadFull": true, "ReadAtLeast": true, "LimitReader": true, "NewSectionReader": true}
+	isBlob := func(v ssa.Value) bool {
+		for i := 0; i < 4 && v != nil; i++ {
+			if n := core.NamedOf(v.Type()); n != nil && n.Obj().Pkg() != nil && n.Obj().Pkg().Path() == modPath("types/blob") {
+				return true
+			}
+			switch x := v.(type) {
+			case *ssa.MakeInterface:
+				v = x.X
+			case *ssa.ChangeInterface:
+				v = x.X
+			case *ssa.TypeAssert:
+				v = x.X
+			default:
+				return false
+			}
+		}
+		return false
+	}
+	n, drains := 0, 0
+	for _, fn := range p.ModFuncs {
+		if len(fn.Blocks) == 0 {
+			continue
+		}
+		lab := labeler{}
+		core.Calls(fn, func(c ssa.CallInstruction) {
+			cal := core.Callee(c)
+			if cal == nil || cal.Pkg() == nil || cal.Pkg().Path() != "io" {
+				return
+			}
+			blobArg := false
+			for _, a := range c.Common().Args {
+				if isBlob(a) {
+					blobArg = true
+				}
+			}
+			if !blobArg {
+				return
+			}
+			if bounded[cal.Name()] {
+				n++
+				r.Violated(rule, p.FuncName(fn), lab.next("io."+cal.Name()+" of a blob reader"), p.Pos(c.Pos()), "the blob is consumed up to a byte count: the Read that reports EOF, where size and digest are compared, is never made or its error is dropped (io.CopyN returns nil once the count is reached), so content of the right length and the wrong digest is accepted")
+			} else if cal.Name() == "Copy" || cal.Name() == "ReadAll" || cal.Name() == "CopyBuffer" {
+				drains++
+			}
+		})
+	}
+	r.Check(drains > 0, rule, "module", "consumers drain to EOF", "-", fmt.Sprintf("%d io.Copy / io.ReadAll of a blob reader, %d bounded consumer(s)", drains, n))
+}
+
+// c01R10: inline data of a descriptor is content like any other. It is used through GetData, which
+// compares it with size and digest; nothing else hands the raw field to code that builds content.
+func c01R10(p *core.Prog, r *core.Report) {
+	const rule = "C01.R10"
+	r.Rule(rule, "inline data only through its check: outside types/descriptor no load of Descriptor.Data is passed to a function of the module (GetData returns it only behind the length and digest comparisons of C01.R5)", 1)
+	n := 0
+	for _, fn := range p.ModFuncs {
+		if len(fn.Blocks) == 0 {
+			continue
+		}
+		if pk := core.FuncPkg(fn); pk == nil || pk.Path() == modPath("types/descriptor") {
+			continue
+		}
+		lab := labeler{}
+		core.Calls(fn, func(c ssa.CallInstruction) {
+			g := core.Callee(c)
+			if g == nil || g.Pkg() == nil || !strings.HasPrefix(g.Pkg().Path(), modPath(".")) {
+				return
+			}
+			for _, a := range c.Common().Args {
+				if fieldLoadOf(a, modPath("types/descriptor"), "Descriptor", "Data") {
+					n++
+					r.Violated(rule, p.FuncName(fn), lab.next("Descriptor.Data handed to "+g.Name()), p.Pos(c.Pos()), "the inline data of a descriptor is used without the comparison with the descriptor's size and digest: content that does not hash to the requested digest is returned without error")
+				}
+			}
+		})
+	}
+	if n == 0 {
+		r.Held(rule, "module", "no raw use of Descriptor.Data", "-", "inline data reaches module code only through GetData")
+	}
 }
 
 func optCalls(v ssa.Value) []*ssa.Call {
